@@ -40,6 +40,7 @@ def gen_knobs(rng, profile=None):
         "cfg_opts": rng.random() < 0.4,
         "sub_in_base": rng.random() < 0.3,
         "subclass_values": True,
+        "schema_omit": True,
         "inherit": rng.random() < 0.5,
         "n_outer": rng.randint(1, 3),
         "n_leaf": rng.randint(1, 2),
